@@ -413,6 +413,82 @@ func c17TernarySessions(c *Ctx) {
 	}
 }
 
+// ---- fixed weight, large rings: the sign bits of coefficients 256, 257, … (sign byte 32 and up) ----
+
+func c17SparseBig(c *Ctx) {
+	type cfg struct {
+		N, H  int
+		op    byte
+		mont  bool
+		style int
+	}
+	var cfgs []cfg
+	if c.Thorough() {
+		for _, N := range []int{512, 1024} {
+			for _, H := range []int{255, 256, 257, 300, 511, 512, N - 1, N} {
+				for _, op := range []byte{'r', 'n', 'a'} {
+					for _, mont := range []bool{false, true} {
+						for style := 0; style < 4; style++ {
+							cfgs = append(cfgs, cfg{N, H, op, mont, style})
+						}
+					}
+				}
+			}
+		}
+	} else {
+		hs := []int{255, 256, 257, 300, 511, 512, 1023, 1024}
+		for k := 0; k < 16; k++ {
+			N := 512 + 512*(k%2)
+			H := hs[(k+c.rng.Intn(len(hs)))%len(hs)]
+			if H > N && k%4 != 3 {
+				H = N - k%2
+			}
+			cfgs = append(cfgs, cfg{N, H, "rna"[k%3], k%4 >= 2, k % 4})
+		}
+		// always: the first weight above 256 and the full weight, crafted signs
+		cfgs = append(cfgs, cfg{512, 257, 'r', false, 0}, cfg{1024, 1024, 'a', true, 1}, cfg{512, 512, 'n', false, 2})
+	}
+	for _, g := range cfgs {
+		chain := []uint64{12289, 65537}
+		if g.N == 1024 && g.style%2 == 1 {
+			chain = []uint64{65537}
+		}
+		hw := g.H
+		if hw > g.N {
+			hw = g.N
+		}
+		nb := (hw + 7) / 8
+		signs := make([]byte, nb)
+		switch g.style {
+		case 0: // 0xFF for the first 32 bytes (coefficients 0..255), then 0x00
+			for k := range signs {
+				if k < 32 {
+					signs[k] = 0xff
+				}
+			}
+		case 1: // the reverse, with alternating bits above
+			for k := range signs {
+				if k >= 32 {
+					signs[k] = 0xaa
+				}
+			}
+		case 2: // every byte different from the byte 32 places before it
+			for k := range signs {
+				signs[k] = byte(37*k + 11*(k/32))
+			}
+		default:
+			copy(signs, c.rng.Bytes(nb+8))
+		}
+		st := (&c17Stream{}).Hex(signs).SM(c.rng.U64(), 4*hw*3+64)
+		lvl := len(chain) - 1
+		if g.op != 'n' && c.rng.Intn(3) == 0 {
+			lvl = 0
+		}
+		c17Sess(c, g.N, chain, []c17Kind{{tag: "th", H: g.H, mont: g.mont}}, st, c17Regs(c, 1, g.N, chain, g.style%2), []c17Call{{0, lvl, g.op, 0}})
+		c.Count(fmt.Sprintf("ternary:H>255:N=%d", g.N))
+	}
+}
+
 // ---- gaussian ----
 
 var c17SigmaBound = [][2]float64{
